@@ -38,9 +38,12 @@ def main():
         rc, o = sh("go test -vet=off -count=1 ./... 2>&1 | grep -v 'no test files'", cwd=wt)
         failed = [l for l in o.splitlines() if l.startswith("FAIL") or l.startswith("--- FAIL")]
         flaky_only = all(("generic" in l or l.strip() == "FAIL" or "TestSyncMap_Range" in l) for l in failed)
-        if failed and flaky_only:   # the pre-existing flaky test: retry once
-            rc2, o2 = sh("go test -vet=off -count=1 ./generic/ 2>&1", cwd=wt)
-            failed = [] if "ok" in o2 else failed
+        if failed and flaky_only:   # the pre-existing flaky test (fails about one run in four on the pinned tree too): retry
+            for _ in range(6):
+                rc2, o2 = sh("go test -vet=off -count=1 ./generic/ 2>&1", cwd=wt)
+                if rc2 == 0:
+                    failed = []
+                    break
         result["existing_tests_with_change"] = "pass" if not failed else "FAIL: " + "; ".join(failed[:5])
         # place the demonstration
         demo_cmd = meta.get("demo_cmd", "")
